@@ -41,7 +41,7 @@ def tlc(module, cfg, workdir, env=None, workers=8, extra=None, timeout=1500, xmx
     """Run TLC on spec/<module>.tla with spec/<cfg>. Returns dict(out, generated, distinct, rc)."""
     meta = os.path.join(workdir, 'meta-%s-%d' % (cfg.replace('.cfg', ''), int(time.time() * 1000) % 100000000))
     cmd = ['java', '-XX:+UseParallelGC', '-Xmx' + xmx, '-Xss' + xss, '-cp', JAVA_CP, 'tlc2.TLC',
-           '-workers', str(workers), '-metadir', meta, '-config', cfg]
+           '-workers', str(workers), '-metadir', meta, '-noGenerateSpecTE', '-config', cfg]
     if extra:
         cmd += extra
     cmd.append(module + '.tla')
